@@ -42,6 +42,7 @@ type SpecInfo struct {
 	SharedResponses []string            `json:"shared_responses"`
 	UsedSharedParam bool                `json:"used_shared_param"`
 	UsedSharedResp  bool                `json:"used_shared_resp"`
+	Diamond         bool                `json:"diamond,omitempty"`
 }
 
 type specGen struct {
@@ -57,7 +58,7 @@ type specGen struct {
 var plainNames = []string{"id", "name", "tag", "kind", "size", "count", "label", "owner", "status", "note"}
 var hostileNames = []string{"a.a", "x.x", "a.b", "b", "x", "default", "example", "items", "properties", "a", "", "0", "é", "allOf", "a b", "x-y"}
 var defNames = []string{"Pet", "Tag", "Err", "Item", "Node", "Box"}
-var hostileDefNames = []string{"a.a", "Pet", "x.x", "x", "default", "a b", "é", "Pet.x", "items"}
+var hostileDefNames = []string{"a.a", "Pet", "x.x", "x", "default", "a b", "é", "Pet.x", "items", "a/b", "a~b"}
 
 func (g *specGen) coin(label string, n int) bool {
 	return rapid.IntRange(0, n-1).Draw(g.t, label) == 0
@@ -210,6 +211,17 @@ func Spec(t *rapid.T, o SpecOpts) (map[string]any, *SpecInfo) {
 			propsOf[name] = taken
 		}
 		g.info.Defs = append(g.info.Defs, name)
+	}
+	// diamond inheritance: two definitions inheriting from the same parent, and a third inheriting from both
+	if len(g.info.Defs) > 0 && (g.coin("diamond", 4) || o.Rich && g.coin("richdiamond", 2)) {
+		base := g.info.Defs[rapid.IntRange(0, len(g.info.Defs)-1).Draw(t, "diamondbase")]
+		if _, clash := defs["DiaLeft"]; !clash {
+			ref := func(n string) map[string]any { return map[string]any{"$ref": "#/definitions/" + escapePtr(n)} }
+			defs["DiaLeft"] = map[string]any{"allOf": []any{ref(base), map[string]any{"type": "object", "properties": map[string]any{"diaLeftOwn": map[string]any{"type": "string"}}}}}
+			defs["DiaRight"] = map[string]any{"allOf": []any{ref(base), map[string]any{"type": "object", "properties": map[string]any{"diaRightOwn": map[string]any{"type": "integer", "format": "int32"}}}}}
+			defs["DiaBottom"] = map[string]any{"allOf": []any{ref("DiaLeft"), ref("DiaRight")}}
+			g.info.Diamond = true
+		}
 	}
 	doc["definitions"] = defs
 
